@@ -10,6 +10,16 @@ CHECKS = {
   note="bounded: trees of depth <=2 (3 for short-circuit forms) over the stated universe; trusted base = reference semantics (DESIGN App. A); oracle abstains on IPv4-mapped IPv6 and non-canonical IP spellings; only error occurrence compared",
   tech="bounded-exhaustive small-scope enumeration of expression trees against a reference interpreter (explicit enumeration, no sampling)",
   ref="DESIGN.md §5 C01"),
+ "C02": dict(
+  text="bounded-exhaustive enumeration of every policy sequence of length <=6 (quick) / <=8 (thorough) over the 6 effect x outcome classes plus every ordered pair of 48 (effect, realisation) atoms, parsed from one generated document; decision, reason set and error set with ids and source positions compared with the decision table on cedar.Authorize (PolicySet, PolicyMap, a harness PolicyIterator in every yield order), PolicySet.IsAuthorized and batch.Authorize",
+  note="bounded: <=8 policies, one store and request (varied elsewhere); outcome class of each realisation declared by hand from the language semantics; positions computed from the construction of the document",
+  tech="bounded-exhaustive enumeration of policy multisets x iteration orders against a decision-table model",
+  ref="DESIGN.md §5 C02"),
+ "C03": dict(
+  text="bounded-exhaustive enumeration of all parent graphs over <=4 named nodes (self-loops, cycles, diamonds) x every subset of nodes present in the store x every ordered pair and every target set incl. a never-present entity, on the three copies of the hierarchy logic (evaluator `in`/`is..in`, compiled scope in cedar.Authorize, partial-evaluation scope), compared with Floyd-Warshall reachability; termination decided by bounding EntityGetter.Get calls per evaluation",
+  note="bounded: <=4 nodes (84 278 canonical stores, 47 M comparisons); larger random graphs are sampling and not done",
+  tech="bounded-exhaustive enumeration of entity graphs against a reachability model, with a step-bounded environment callback as non-termination detector",
+  ref="DESIGN.md §5 C03"),
  "C20": dict(
   text="explicit-state BFS over all container operation histories up to the stated depth from 14 initial states, every transition executed on the real PolicySet and compared with a Go-map model and the authorization decision table",
   note="bounded: ids {a, policy1, policy10, policy2}+loaded ids, 5 policy kinds, depth 4 (quick) / 6 (thorough); model = plain Go map",
